@@ -131,6 +131,11 @@ pub(crate) struct Env {
     /// Used for 'evaluate up to cursor'.
     pub(crate) stop_at_expr_id: Option<SyntaxId>,
 
+    /// If `stop_at_expr_id` is a `for` loop, stop as soon as we've
+    /// entered its first iteration (so eval-up-to can show the first
+    /// value of the loop variable) rather than when the loop is done.
+    pub(crate) stop_at_loop_entry: bool,
+
     /// Refuse to run code might modify the system, such as filesystem
     /// access or shell commands. This should allow us to run
     /// arbitrary code safely.
@@ -205,6 +210,7 @@ impl Env {
             stack_limit: None,
             enforce_sandbox: false,
             stop_at_expr_id: None,
+            stop_at_loop_entry: true,
             id_gen,
             vfs,
             initial_state: None,
